@@ -81,6 +81,19 @@ Theorem C04_cutchoose_extract_partial : forall (p q g h : Z) (s s2 t : list (Z *
 Proof. exact cutchoose_extract_partial. Qed.
 Print Assumptions C04_cutchoose_extract_partial.
 
+(* ... and when the first answer's index component is a permutation of 0..n-1 (enforced by TMCG_StackSecret::import), every
+   card of the shuffled stack is such a re-masking of some card of the input stack *)
+Theorem C04_cutchoose_every_card_partial : forall (p q g h : Z) (s s2 t : list (Z * Z)) (ss0 ss1 : list (N * Z)),
+  1 < p -> prime q -> powm g q p = 1 -> powm h q p = 1 ->
+  (forall j x r, nthN ss0 j = Some (x, r) -> 0 <= r) -> (forall j x r, nthN ss1 j = Some (x, r) -> 0 <= r) ->
+  length s = length s2 -> (length s <= max_cards)%nat ->
+  Permutation.Permutation (map fst ss1) (iota (length s)) ->
+  vmix p g h s2 ss1 = Ret t -> vmix p g h s ss0 = Ret t ->
+  forall a, (a < N.of_nat (length s))%N ->
+  exists b c2 c d, nthN s2 a = Some c2 /\ nthN s b = Some c /\ 0 <= d < q /\ (fst c2 mod p, snd c2 mod p) = vmask p g h c d.
+Proof. exact cutchoose_every_card_partial. Qed.
+Print Assumptions C04_cutchoose_every_card_partial.
+
 (* cut and choose over an abstract mask: for a false statement (s <> s2) the prover who prepares for one guessed
    challenge string is accepted iff the verifier's coins equal the guess -- for every kappa.
    Premises: the commitment (hash of the re-mixed stack) has no collision on the compared stacks, and masking with one
